@@ -10,7 +10,7 @@ from twisted.python.failure import Failure
 ID = "C07"
 LEVEL = "exploration"
 TECHNIQUE = "deterministic simulation: seeded interleaving of caller operations vs reference FIFO model"
-QUICK_RUNS = 24000
+QUICK_RUNS = 72000
 BATCH = 400
 COMPONENTS = {"real": ["twisted.internet.defer.DeferredQueue", "twisted.internet.defer.Deferred"],
               "stub": ["order in which independent callers issue operations (tape)"]}
